@@ -243,7 +243,7 @@ def startupOpts (cfg : Config) (m : List (Bytes × List Bytes)) : List (Bytes ×
   | none => (base, false)
   | some name =>
     let comp := (m.lookup kCompression).getD []
-    if comp.any (fun c => c == name) then (base ++ [(kCompression, name)], true) else (base, false)
+    if comp.contains name then (base ++ [(kCompression, name)], true) else (base, false)
 
 def gval (x : Option Bytes) : GVal := ⟨[], false, x⟩
 
